@@ -13,7 +13,7 @@ Definition names_ok (o : op) : bool :=
   let ok (n : str) := Nat.leb 3 (List.length n) in
   match o with
   | OCreateTable ct => ok (ct_table ct)
-  | OAddTable t _ _ | ODeleteTable t | OPut t _ _ _ _ | OGet t _ | OUpdate t _ _ _ _ _ _ | ODelete t _ _ _ _ _ => ok t
+  | OAddTable t _ _ | ODeleteTable t | OPut t _ _ _ _ | OGet t _ _ _ | OUpdate t _ _ _ _ _ _ | ODelete t _ _ _ _ _ => ok t
   | OAddIndex t i _ _ => ok t && ok i
   | OUpdateTable t _ create _ => ok t && match create with Some d => ok (id_name d) | None => true end
   | OBatchWrite reqs => forallb (fun tr => ok (fst tr)) reqs
@@ -137,7 +137,7 @@ Qed.
 (* same state transition and same result class through both clients, for every request that passes the v1
    parameter validation, BatchGetItem excepted (the v1 client has none) *)
 Theorem clients_same_transition c o :
-  names_ok o = true -> (match o with OBatchGet _ => False | _ => True end) ->
+  names_ok o = true -> (match o with OBatchGet _ _ => False | _ => True end) ->
   fst (step lm lu V1 c o) = fst (step lm lu V2 c o) /\
   o_res (snd (step lm lu V1 c o)) = o_res (snd (step lm lu V2 c o)).
 Proof.
@@ -148,7 +148,7 @@ Proof.
   - unfold v1_name_ok. rewrite Hn. cbn. auto.
   - apply andb_true_iff in Hn as [H1 H2]. now rewrite (update_table_flav _ _ _ _ _ H1 H2).
   - now apply put_item_flav.
-  - unfold get_item_op. rewrite (preamble_flav _ _ _ _ _ Hn). destruct (preamble V2 c table [] [] _); auto.
+  - unfold get_item_op. rewrite (preamble_flav c table names [] [proj] Hn). destruct (preamble V2 c table names [] _); auto.
     destruct (get_key _ _ _); auto.
   - now apply update_item_flav.
   - now apply delete_item_flav.
